@@ -14,12 +14,15 @@ for the reference is C13's print/parse theorem and enters `requiresDist_faithful
 `PrintFaithful`; ON C13's FULL COMPARISON-OPERATOR DOMAIN that hypothesis is discharged (`printFaithful_domain`:
 C13 `print_parse_full` composed with C06 `parse_eval_agree`), giving `requiresDist_faithful_domain` with no hypothesis
 about printing or parsing — what remains there is the leaf specification for `CompLeaf E` (C07's obligation on
-`_merge_single_markers`) and domain conditions on the declared texts and on the printed tree (`SynInDomain`).  The
+`_merge_single_markers`) and domain conditions on the declared texts and on the printed tree (`SynInDomain`).
+ON `FullLeafLLs E`, where C07's leaf specification is proved (`leafSpec_fullLLs`), that last hypothesis is discharged too:
+`dependency_marker_faithful_domain` and `requiresDist_faithful_domain_only` carry domain conditions only.  The
 version part is C15's (used as proved in C10's `dep_roundtrip_registry_identical`).  Selection (`no_nonoptional_dropped`, `empty_marker_never_unconditional`),
 Provides-Extra and the structure of Requires-Python are proved outright.
 -/
 import PoetryVerif.Proofs.Dep02
 import PoetryVerif.Proofs.Proj621
+import PoetryVerif.Proofs.Dep02LL
 import PoetryVerif.Props.C06
 import PoetryVerif.Props.C13
 
@@ -192,6 +195,57 @@ theorem requiresDist_faithful_domain (S : LeafSpec (leafEval E) (CompLeaf E)) (D
   rw [M.validate_eq_sem E d.marker (M.good_mono (fun l hl => fullInvLeaf_evaluable hX hE hl) d.marker hg)] at hv
   injection hv with hv
   rw [hv]
+
+/-- **the dependency's marker means the declared conditions — domain conditions only.**  On `FullLeafLLs E` (plain string
+variables, `extra`, the python variables with a comparison operator, `~=` or a list) C07's leaf specification is proved
+(`leafSpec_fullLLs`), C11's python clause is proved (`createNested_full`) and C06's compaction agreement is proved
+(`compactSub_agree_gen`); what remains are conditions ON THE DECLARED TEXTS: the `markers` text and the printed
+`sys_platform` clause parse to trees of that domain (`MarkersDomLL`, `PlatformDomLL`), the python range lies in C11's
+domain with two- or three-component bounds (`PyDecl2`). -/
+theorem dependency_marker_faithful_domain {ex : List String} (hX : E.extras = some ex) {X Y Z : Nat}
+    (hE : EnvPy E X Y Z) (D : Decl) (bM bPy bPl : Bool) (d : Dep) (hM : declRef E D.markers = some bM)
+    (hMa : MarkersDomLL E D.markers) (hPy : PyDecl2 D.python X Y Z bPy) (hPl : PlatformDecl E D.platform bPl)
+    (hPa : PlatformDomLL E D.platform) (h : packageDependency D = .ok d) :
+    M.Good (FullLeafLLs E) d.marker ∧ M.sem (leafEval E) d.marker = (bM && bPy && bPl) ∧
+      M.validate E d.marker = .ok (bM && bPy && bPl) := by
+  unfold packageDependency at h
+  cases hc : createDependency D with
+  | error e => simp [hc, bind, Except.bind] at h
+  | ok d0 =>
+    simp only [hc, bind, Except.bind, pure, Except.pure] at h
+    cases h
+    obtain ⟨m, hm, hd⟩ := createDependency_marker D d0 hc
+    rw [wireExtras_marker, hd]
+    have := declMarker_sem_LL hX hE D bM bPy bPl m hM hMa hPy hPl hPa hm
+    refine ⟨this.1, this.2, ?_⟩
+    rw [M.validate_eq_sem E m (M.good_mono (fun l hl => fullLeafLLs_evaluable hX hE hl) m this.1), this.2]
+
+/-- **Requires-Dist is faithful — no hypothesis about the code left**: the line is `base ; str(marker)` and the PEP 508
+reference gives that text exactly the value of the declared conditions.  All hypotheses are domain conditions: on the
+environment (`EnvPy`, extras defined), on the declared texts (`MarkersDomLL`, `PyDecl2`, `PlatformDomLL`), and on the
+resulting marker for the printing step (C13's domain `FullInvLeaf E`, printed tree in C06's `SynInDomain`). -/
+theorem requiresDist_faithful_domain_only {ex : List String} (hX : E.extras = some ex) {X Y Z : Nat}
+    (hE : EnvPy E X Y Z) (D : Decl) (bM bPy bPl : Bool) (d : Dep) (hM : declRef E D.markers = some bM)
+    (hMa : MarkersDomLL E D.markers) (hPy : PyDecl2 D.python X Y Z bPy) (hPl : PlatformDecl E D.platform bPl)
+    (hPa : PlatformDomLL E D.platform) (h : packageDependency D = .ok d)
+    (hg : M.Good (FullInvLeaf E) d.marker) (syn : Syn) (hsyn : M.toSyn d.marker = some syn)
+    (hdom : C06.SynInDomain E syn) (base : String) (hb : d.basePep508Name = .ok base) (hi : d.inExtras = [])
+    (hne : d.marker.isEmpty = false) (hany : d.marker.isAny = false) (xs : Option (List (List (String × String))))
+    (hx : convertMarkersFor "extra" d.marker = .ok xs) :
+    ∃ t, d.marker.toStr = .ok t ∧ d.toPep508 = .ok (base ++ " ; " ++ t) ∧ refEval E t = some (bM && bPy && bPl) := by
+  obtain ⟨t, ht, _⟩ := C13.print_parse_full hX hE hg hsyn
+  refine ⟨t, ht, (requires_dist_line_shape d base hb hi hne).2 hany t xs ht hx, ?_⟩
+  rw [printFaithful_domain hX hE hg hsyn hdom t ht,
+    (dependency_marker_faithful_domain hX hE D bM bPy bPl d hM hMa hPy hPl hPa h).2.1]
+
+/-- non-vacuity of the conditions on the declared texts: absent `markers` / `platform`, `python = ">=3.8,<3.11"` -/
+example (E : Env) : MarkersDomLL E none ∧ PlatformDomLL E none ∧ PyDecl2 (some ">=3.8,<3.11") 3 9 1 true := by
+  refine ⟨fun h => absurd h (by decide), fun h => absurd h (by decide), _, rfl, by decide +kernel, ?_, by decide +kernel⟩
+  intro rc hrc e he
+  simp [VC.flatten] at hrc
+  subst hrc
+  simp [RC.bounds, RC.view, VRange.bounds, RC.min, RC.max] at he
+  rcases he with rfl | rfl <;> decide
 
 /-! ## selection -/
 
